@@ -30,22 +30,19 @@ BConstM(M_0, N) == Let1(M_0, LAMBDA M :
 BEmbed(P_0, d) == Let1(P_0, LAMBDA P :
  TLCEval([i \in 1..Len(P) |-> [j \in 1..Len(P) |-> MScalar(d, P[i][j][1][1])]]))
 
-(* beta(R) = sum_k bs[k+1] R^(k+2) for a scalar BiPoly R, truncated               *)
+(* beta(R) = sum_k bs[k+1] R^(k+2) for a scalar polynomial R, truncated            *)
 RECURSIVE BetaOfFrom(_, _, _, _)
-BetaOfFrom(bs_0, R_0, Rpow_0, k) == Let3(bs_0, R_0, Rpow_0, LAMBDA bs, R, Rpow :
-   \* Rpow = R^(k+2)
-  IF k + 1 > Len(bs) \/ k + 2 > BN(R) THEN BZero(1, BN(R))
-  ELSE BAdd(BScale(bs[k + 1], Rpow), BetaOfFrom(bs, R, BMul(Rpow, R), k + 1)))
-BetaOf(bs_0, R_0) == Let2(bs_0, R_0, LAMBDA bs, R :
- BetaOfFrom(bs, R, BMul(R, R), 0))
+BetaOfFrom(bs_0, R_0, Rpow_0, k) == Let3(bs_0, R_0, Rpow_0, LAMBDA bs, R, Rpow :   \* Rpow = R^(k+2)
+  IF k + 1 > Len(bs) \/ k + 2 > Len(R) - 1 THEN PZero(Len(R) - 1)
+  ELSE PAdd(PScale(bs[k + 1], Rpow), BetaOfFrom(bs, R, PMul(Rpow, R), k + 1)))
+BetaOf(bs_0, R_0) == Let2(bs_0, R_0, LAMBDA bs, R : BetaOfFrom(bs, R, PMul(R, R), 0))
 
 RECURSIVE RIter(_, _, _, _)
 RIter(bs_0, N, R_0, m) == Let2(bs_0, R_0, LAMBDA bs, R :
-
   IF m = 0 THEN R
-  ELSE RIter(bs, N, BAdd(BMono(1, N, 1, 0, S1(Q1)), BIntL(BetaOf(bs, R))), m - 1))
-(* R(a', L) through a'^N; bs = <<beta_0, beta_1, ...>> rationals                   *)
-Reexpansion(bs, N) == IF N = 0 THEN BZero(1, 0) ELSE RIter(bs, N, BMono(1, N, 1, 0, S1(Q1)), N)
+  ELSE RIter(bs, N, PAdd(PMonoA(N, 1), PIntL(BetaOf(bs, R))), m - 1))
+(* R(a', L) through a'^N (scalar polynomial); bs = <<beta_0, beta_1, ...>> rationals  *)
+Reexpansion(bs, N) == IF N = 0 THEN PZero(0) ELSE RIter(bs, N, PMonoA(N, 1), N)
 
 (* the first coefficients in closed form, as a check of the derivation              *)
 ReexpansionKnown(bs_0) == Let1(bs_0, LAMBDA bs :
@@ -54,7 +51,7 @@ ReexpansionKnown(bs_0) == Let1(bs_0, LAMBDA bs :
   LET b0 == bs[1]
       b1 == bs[2]
       b2 == bs[3]
-      c(i, j) == R[i + 1][j + 1][1][1]
+      c(i, j) == R[i + 1][j + 1]
   IN  /\ c(1, 0) = Q1
       /\ c(2, 1) = b0
       /\ c(3, 1) = b1 /\ c(3, 2) = QMul(b0, b0)
@@ -69,7 +66,7 @@ GammaOfRFrom(gs_0, Rd_0, Rpow_0, k, N) == Let3(gs_0, Rd_0, Rpow_0, LAMBDA gs, Rd
   IF k + 1 > Len(gs) \/ k + 1 > N THEN BZero(Len(gs[1]), N)
   ELSE BAdd(BMul(BConstM(gs[k + 1], N), Rpow), GammaOfRFrom(gs, Rd, BMul(Rpow, Rd), k + 1, N)))
 GammaOfR(gs, bs, N) ==
-  Let1(BEmbed(Reexpansion(bs, N), Len(gs[1])), LAMBDA Rd : GammaOfRFrom(gs, Rd, Rd, 0, N))
+  Let1(BOfScalar(Reexpansion(bs, N), Len(gs[1])), LAMBDA Rd : GammaOfRFrom(gs, Rd, Rd, 0, N))
 
 (* ---- exponentiated scheme: gamma'_j(L) for j = 0..n-1 at order n ----------------- *)
 (* gs = <<gamma_0, .., gamma_(n-1)>> (d x d), value at the rational L                   *)
